@@ -49,6 +49,7 @@ def meta(tier, seed):
                    "policies": (LP_QUICK + ["%s (n<=2 on 1d, 2d6)" % x for x in LP_QUICK_SHORT]) if tier == "quick" else LP_THOROUGH, "rewards": "row i rewarded 2^i (binary i%2 for Thompson)",
                    "earlier_life": "a third of the bandits first live another life (fit on other rows, a query) before the history, "
                                    "get float64 contexts and answer a query between any two training calls",
+                   "arm_changes": "a quarter of the bandits remove arm 2, answer a query and add it again before they are judged",
                    "n_jobs": "a third of the bandits answer with n_jobs = 2 (joblib model, default schedule), the others with 1"},
         "assumptions": ["metrics whose distances are irrational on the grid are not checked at the boundary",
                         "the learning policy's own arithmetic is C01/C02's subject; here it is the reference"],
@@ -217,7 +218,8 @@ def make_cfg(ln, kind, metric, param, p_vec, seed, n_jobs=1):
     return {"arms": [1, 2], "lp": A.LPS[ln], "np": np_, "seed": seed, "n_jobs": n_jobs, "backend": None}
 
 
-def judge(cfg, ln, kind, metric, param, thr, p_vec, hist_rows, comp, queries, one_by_one, acc=None, prefit=False):
+def judge(cfg, ln, kind, metric, param, thr, p_vec, hist_rows, comp, queries, one_by_one, acc=None, prefit=False,
+          readd=False):
     """Full evaluation of one bandit: batch query (+ single-row queries).  -> list of messages."""
     history = []
     if prefit:
@@ -232,6 +234,10 @@ def judge(cfg, ln, kind, metric, param, thr, p_vec, hist_rows, comp, queries, on
             history.append(["predict_expectations", [[float(v) for v in queries[-1]]]])     # a query between training calls
         history.append(["fit" if i == 0 else "partial_fit", [r[0] for r in rows], [r[2] for r in rows],
                         [[float(v) for v in r[1]] if prefit else list(r[1]) for r in rows]])     # float64 contexts there
+    if readd:
+        # arm 2 is removed, a query is answered, and the arm is added again: the stored observations are still all the
+        # rows passed to fit and partial_fit (the arm list is the same as before, so the reference is unchanged)
+        history += [["remove_arm", 2], ["predict_expectations", [[float(v) for v in queries[0]]]], ["add_arm", 2]]
     mab = build(cfg, history)
     msgs = []
     seeds = row_seeds(mab, len(queries))
@@ -307,13 +313,16 @@ def _run_shard(shard):
                     cfg = make_cfg(ln, kind, metric, param, p_vec, shard["seed"], 2 if (ci + pi + len(pts)) % 3 == 1 else 1)
                     one = ci == 0 and pi == 0  # single-row queries once per stored set
                     prefit = (ci + pi + len(pts)) % 3 == 0
-                    msgs, history = judge(cfg, ln, kind, metric, param, thr, p_vec, hist_rows, comp, qgrid, one, acc, prefit)
+                    readd = (ci + pi + sum(pts[-1])) % 4 == 1
+                    msgs, history = judge(cfg, ln, kind, metric, param, thr, p_vec, hist_rows, comp, qgrid, one, acc, prefit,
+                                          readd)
                     acc.traces += 1
                     acc.state((ln, kind, metric, str(param), str(hist_rows), ci))
                     if msgs:
                         acc.violation("%s/%s %s %s=%s comp=%d" % (ln, kind, metric, "r" if kind == "rad" else "k", param, len(comp)),
                                       {"cfg": cfg, "ln": ln, "kind": kind, "metric": metric, "param": param, "thr": thr,
-                                       "p_vec": p_vec, "rows": hist_rows, "comp": comp, "queries": qgrid, "prefit": prefit},
+                                       "p_vec": p_vec, "rows": hist_rows, "comp": comp, "queries": qgrid, "prefit": prefit,
+                                       "readd": readd},
                                       msgs[0])
                     elif n >= 2 and ci == 1 and len(acc.samples) < 2:
                         acc.sample({"cfg": cfg, "history": history, "queries": grid})
@@ -324,5 +333,5 @@ def replay(w):
     rows = [(r[0], r[1], r[2]) for r in w["rows"]]
     comp = [tuple(c) for c in w["comp"]]
     msgs, _ = judge(w["cfg"], w["ln"], w["kind"], w["metric"], w["param"], w["thr"], w["p_vec"], rows, comp,
-                    w["queries"], True, prefit=w.get("prefit", False))
+                    w["queries"], True, prefit=w.get("prefit", False), readd=w.get("readd", False))
     return msgs
